@@ -39,6 +39,7 @@ def run(ctx):
         ctx.rule(started, c)
     ctx.rule(guards)
     ctx.rule(readonly)
+    ctx.rule(no_module_state)
 
 
 # ------------------------------------------------------------- attribute effects
@@ -422,3 +423,19 @@ def readonly(ctx, R="R-C04-readonly-input"):
     ctx.info["effect_summaries"] = {k: {"writes_params": {str(i): sorted(map(str, v)) for i, v in s[0].items()}, "returns_alias_of": sorted(s[1])}
                                     for k, s in eff._summ.items() if s[0] or s[1]}
     ctx.floor(R, len(n_funcs), 5)
+
+
+
+def no_module_state(ctx, R="R-C04-reset"):
+    """A computer's state lives on the instance (where the reset rule can see it): nothing is kept in class- or module-level
+    objects, where it would survive the end of an utterance and be shared with other instances."""
+    from .c20 import no_shared_state
+    prog = ctx.prog
+    n = 0
+    for cname in ("compute.ShortTimeFourierTransformFrameComputer", "compute.ShortIntegrationFrameComputer"):
+        c = prog.cls(cname)
+        for fi in prog.functions.values():
+            if fi.cls is c and fi.parent is None:
+                n += 1
+                no_shared_state(ctx, R, fi, "%s.%s" % (c.name, fi.name), allow_self=True)
+    ctx.need(n >= 10, R, "methods of the frame computers not found")
